@@ -50,7 +50,7 @@ CHECKS["C12"] = (
 CHECKS["C14"] = (
     "exploration",
     "runtime monitoring: the three copies of the assignment / buffer-splitting code called directly (and live distributors on simulated ranks), judged by a tie-agnostic LPT-consistency checker, brute-force optimum and byte-level buffer geometry",
-    "Direct family: all multisets of <=5 (quick) / <=7 (thorough) sizes from {1,63,64,65,128,500} x group sizes 1..4 (exhaustive, ties everywhere) plus random sequences up to 200 blocks x group sizes 1..16, each copy: exactly one in-group owner per block, determinism across repeated / interleaved calls, LPT-consistency (some least-loaded rank at every step, any tie rule), spread <= largest block, max load <= 4/3 OPT against brute force (<=9 blocks, <=4 ranks), 64-byte alignment and size >= block. Buffer family: real _construct_distributed_buffers on generated block shapes x communication dtypes: every typed view inside its owner's segment, large enough, contiguous, pairwise disjoint, local list = owner's sub-list. Exhaustive below the stated bound, sampled above.",
+    "Direct family: all multisets of <=5 (quick) / <=7 (thorough) sizes from {1,63,64,65,128,500} x group sizes 1..4 (exhaustive, ties everywhere) plus random sequences up to 200 blocks x group sizes 1..16, each copy: exactly one in-group owner per block, determinism across repeated / interleaved calls, LPT-consistency (some least-loaded rank at every step, any tie rule), spread <= largest block, max load <= 4/3 OPT against brute force (<=9 blocks, <=4 ranks), 64-byte alignment and size >= block. Buffer family: real _construct_distributed_buffers on generated block shapes x communication dtypes: every typed view inside its owner's segment, large enough, contiguous, pairwise disjoint, local list = owner's sub-list. Live family: DDP / HSDP / HybridShard optimizers on simulated ranks (incl. communication dtype wider than the parameter dtype): per group every block's optimizer state has non-empty local tensors on exactly one rank, and the live distributor's buffer views satisfy the same geometry. Exhaustive below the stated bound, sampled above.",
     "Trusted: vf/blocking.py (LPT-consistency search, brute-force optimum). Direct calls use a stub carrying the group size under the attribute names the copies read today; if they move, the family turns inconclusive rather than alarming.",
     "DESIGN.md 3 C14",
 )
@@ -73,8 +73,8 @@ CHECKS["C01"] = (
 CHECKS["C04"] = (
     "exploration",
     "runtime monitoring: bit-level shadow snapshots of absent parameters/state and the block-keyed step-locked reference under exhaustive and random gradient-presence histories on equal-shaped parameters",
-    "Exhaustive family: all 3-step mask sequences over k=2 (quick, 6 configurations) and k=2,3 (thorough) equal-shaped parameters followed by all-present steps; random family: toggling / never-present / all-absent / bursts / random walks over 6-20 steps, optionally blocked parameters and two groups. Every absent parameter block and each of its state tensors is compared bit-for-bit (SHA-256 of raw bytes) before/after the step; the group counter must stay put on all-absent steps; every present block must follow from its own previous state (reference keyed by (parameter, block key), distinct gradient scales per parameter make cross-wiring visible). Exhaustive below the stated bound, sampled above.",
-    "Trusted: as C01. The DDP-specific masked lists are exercised by C06.",
+    "Exhaustive family: all 3-step mask sequences over k=2 (quick, 6 configurations) and k=2,3 (thorough) equal-shaped parameters followed by all-present steps; random family: toggling / never-present / all-absent / bursts / random walks over 6-20 steps, optionally blocked parameters and two groups. Every absent parameter block and each of its state tensors is compared bit-for-bit (SHA-256 of raw bytes) before/after the step; the group counter must stay put on all-absent steps; every present block must follow from its own previous state (reference keyed by (parameter, block key), distinct gradient scales per parameter make cross-wiring visible). A `ddp` family runs the same byte shadow for absent parameters and their state on every rank of simulated DDP worlds (the DDP distributor keeps its own masked lists). Exhaustive below the stated bound, sampled above.",
+    "Trusted: as C01; DDP worlds as C06.",
     "DESIGN.md 3 C04",
 )
 
@@ -104,7 +104,7 @@ CHECKS["C13"] = (
 CHECKS["C09"] = (
     "fault_enumeration",
     "runtime monitoring: every stop step of every generated run is a crash point: save -> torch.save/load -> fresh optimizer -> load -> continue, compared bit-for-bit (SHA-256 of raw bytes) with the uninterrupted run; negative loads enumerated per flat key and per sub-tree",
-    "96 (quick) / 1500 (thorough) generated runs (Shampoo/SOAP, all grafting types, momentum, filtering, 1-3 param groups, blocked parameters, blocks without Kronecker factors, absent gradients, scheduler edits), T in 4..12; the crash-point space of each run (k = 0..T) is enumerated completely (~850 resumes quick). After each resumed step every parameter and every tensor found by an independent traversal of optimizer.state must be bit-identical to the uninterrupted run; per parameter the number of flat keys must equal the number of reachable tensors (uniqueness / completeness). Negative loads: every single flat key and every sub-tree (block / module / attribute) deleted in turn, an unknown parameter key, an extra and a renamed param group - each must raise (~5k defective loads quick).",
+    "96 (quick) / 1500 (thorough) generated runs (Shampoo/SOAP, all grafting types, momentum, filtering, 1-3 param groups, blocked parameters, blocks without Kronecker factors, absent gradients, scheduler edits), T in 4..12; the crash-point space of each run (k = 0..T) is enumerated completely (~850 resumes quick). After each resumed step every parameter and every tensor found by an independent traversal of optimizer.state must be bit-identical to the uninterrupted run; per parameter the number of flat keys must equal the number of reachable tensors (uniqueness / completeness). Negative loads: every single flat key and every sub-tree (block / module / attribute) deleted in turn, an unknown parameter key, an extra and a renamed param group - each must raise (~5k defective loads quick). A `ddp` family repeats save -> torch.save/load -> fresh optimizer -> load -> continue on 2-4 simulated DDP ranks with DTensor state (all ranks stop at the same steps), compared bit for bit per rank.",
     "Trusted: torch.save/torch.load; the harness's traversal of dict/tuple/OptimizerModule graphs. torch.distributed.checkpoint resharding is not exercised.",
     "DESIGN.md 3 C09",
 )
@@ -120,7 +120,7 @@ CHECKS["C18"] = (
 CHECKS["C06"] = (
     "exploration",
     "runtime monitoring on simulated ranks: the real DDP distributor/optimizer run on 1-8 rank threads (torch threaded process group, real DeviceMesh/DTensor) under a collective ledger with logical deadlock detector, replica bit-equality, serial twin, and an exact rounding model of the communicated quantity",
-    "260 configurations x 2 interleavings quick (3000 x 4 thorough, plus 12 real gloo multi-process runs): world sizes 1..8, every divisor group size, communicate_params on/off, DEFAULT/FP32/FP16/BF16, float32/float64 parameters, generated optimizer configurations, presence patterns that starve ranks. Per step: all replicas bit-identical; exact communication => bit-identical to a free-running serial twin; reduced precision => each owner's update (captured at the public update_params argument) equals the re-synchronised serial twin's update bit for bit, every block has exactly one owner per group, and every parameter equals W_old + cast(u) (updates) or cast(W_old+u) (parameters) exactly. Ledger: every rank's sequence of new_group calls and, per group, of (op, bytes, dtype, iteration) must be identical; a logical detector (no timing) reports a stuck rank as soon as no rank can progress while a collective is incomplete. Evidence counts collectives logged and distinct arrival-order signatures. Sampled schedules.",
+    "260 configurations x 2 interleavings quick (3000 x 4 thorough, plus 12 real gloo multi-process runs): world sizes 1..8, every divisor group size, communicate_params on/off, DEFAULT/FP32/FP16/BF16, float32/float64/bfloat16 parameters, generated optimizer configurations, presence patterns that starve ranks; absent parameters and their state are byte-shadowed on every rank. Per step: all replicas bit-identical; exact communication => bit-identical to a free-running serial twin; reduced precision => each owner's update (captured at the public update_params argument) equals the re-synchronised serial twin's update bit for bit, every block has exactly one owner per group, and every parameter equals W_old + cast(u) (updates) or cast(W_old+u) (parameters) exactly. Ledger: every rank's sequence of new_group calls and, per group, of (op, bytes, dtype, iteration) must be identical; a logical detector (no timing) reports a stuck rank as soon as no rank can progress while a collective is incomplete. Evidence counts collectives logged and distinct arrival-order signatures. One open known finding (0-D 16-bit parameter communicated in its own dtype, KNOWN_FINDINGS.txt) is classified by a predicate on the case and reported as KNOWN-FINDING. Sampled schedules.",
     "Trusted: torch's threaded process group as a faithful stand-in for collectives semantics (cross-checked by gloo runs in the thorough tier); per-thread get_device_mesh cache models per-process state; sleeps are injected only at the collective / group-creation wrappers.",
     "DESIGN.md 2 E5, 3 C06",
 )
@@ -128,7 +128,7 @@ CHECKS["C06"] = (
 CHECKS["C07"] = (
     "exploration",
     "runtime monitoring on simulated ranks: real FSDP / HSDP distributors inside the optimizer, shards and metadata built by the harness, compared after every step with a serial twin run on the sub-tensors given by an independent slab DP; replica, ledger and deadlock monitors for HSDP",
-    "200 (quick) / 2500 x 2 interleavings (thorough) sharded worlds: original shapes of order 1..4, flat-parameter sharding over 1..8 shard ranks (mid-row cuts, empty shards) or arbitrary cuts, HSDP on R x S meshes with every divisor num_trainers_per_group, all communication settings, generated optimizer configurations, absent gradients. Per rank and step every recovered sub-tensor of every shard must equal the twin parameter (bitwise; with reduced-precision communication within 4 u_comm of the communicated quantity against a re-synchronised twin); shards without gradient must stay bit-identical; HSDP replicas bit-identical; collective ledger identical across ranks; logical deadlock detector. Because the slabs partition each shard and shards partition each parameter, equality with the twin implies every element is updated exactly once. Sampled.",
+    "200 (quick) / 2500 x 2 interleavings (thorough) sharded worlds: original shapes of order 1..4, flat-parameter sharding over 1..8 shard ranks (mid-row cuts, empty shards) or arbitrary cuts, HSDP on R x S meshes with every divisor num_trainers_per_group, all communication settings, generated optimizer configurations, absent gradients. Per rank and step every recovered sub-tensor of every shard must equal the twin parameter (bitwise; with reduced-precision communication within 4 u_comm of the communicated quantity against a re-synchronised twin); shards without gradient must stay bit-identical; HSDP replicas bit-identical; collective ledger identical across ranks; logical deadlock detector. Because the slabs partition each shard and shards partition each parameter, equality with the twin implies every element is updated exactly once. Thorough tier adds 10 runs of REAL torch FSDP / HYBRID_SHARD (use_orig_params=True) on gloo processes: the flat range each rank really holds is decoded from position codes written into the parameters before wrapping and compared with compile_fsdp_parameter_metadata, then the optimizer runs end-to-end next to the twin. Sampled.",
     "Trusted: vf/blocking.one_min_decomposition (validated exhaustively against both recovery copies in C15), threaded process group, harness-built FSDPParameterMetadata. Real FSDP wrapping on GPU is not reachable.",
     "DESIGN.md 3 C07",
 )
